@@ -261,6 +261,7 @@ class BaseEngine(abc.ABC):
             program = [program]
 
         kwargs.setdefault("shots", 1)
+        compile_options = dict(compile_options)  # never modify the caller's dictionary
         # NOTE: by putting ``shots`` into keyword arguments, it allows for the
         # signatures of methods in Operations to remain cleaner, since only
         # Measurements need to know about shots
